@@ -229,7 +229,16 @@ func mergeAnalysisConfig(base *analysis.Config, filename string, perFile map[str
 	if symbols, ok := perFile[filename]; ok && len(symbols.packages) > 0 {
 		currentPackages = symbols.packages
 	}
-	for path, symbols := range perFile {
+	// Visit the other files in sorted order: later entries overwrite earlier
+	// ones in the analyzer's bare-name index, so ranging over the map made
+	// the output depend on Go's randomised map iteration order.
+	paths := make([]string, 0, len(perFile))
+	for path := range perFile {
+		paths = append(paths, path)
+	}
+	sort.Strings(paths)
+	for _, path := range paths {
+		symbols := perFile[path]
 		if path == filename {
 			continue
 		}
@@ -318,7 +327,13 @@ func scanProgramSymbols(exprs []*lisp.LVal, cfg *Config) ([]analysis.ExternalSym
 
 	globals := make([]analysis.ExternalSymbol, 0, len(defs))
 	pkgExports := make(map[string][]analysis.ExternalSymbol)
-	for key, sym := range defs {
+	keys := make([]string, 0, len(defs))
+	for key := range defs {
+		keys = append(keys, key)
+	}
+	sort.Strings(keys) // deterministic order, see mergeAnalysisConfig
+	for _, key := range keys {
+		sym := defs[key]
 		globals = append(globals, sym)
 		pkg, name, _ := strings.Cut(key, "/")
 		if exported[pkg][name] {
